@@ -107,7 +107,7 @@ struct AuthModel {
       if (!data.empty()) { if (!identity.empty()) return rejected(); identity = data; }
       if (identity.empty() && !asked) { asked = true; st = WAIT_DATA; return {Resp::DATA_EMPTY}; }
       if (identity.empty()) { uid = sock_uid; anon = false; st = WAIT_BEGIN; return {Resp::OK}; }
-      if (all_digits(identity)) {
+      if (all_digits(identity) && !(identity.size() > 1 && identity[0] == '0')) {
         unsigned long v = strtoul(identity.c_str(), nullptr, 10);
         if (v == sock_uid) { uid = sock_uid; anon = false; st = WAIT_BEGIN; return {Resp::OK}; }
         return rejected();
@@ -121,6 +121,10 @@ struct AuthModel {
       {
         char *end = nullptr;
         unsigned long v = strtoul(identity.c_str(), &end, 10);
+        if (end && *end == 0 && end != identity.c_str() && v == sock_uid) may_denote_self = true;
+        // (a leading zero: "the string form of the UID" is decimal, the reference also reads C-style octal / hex;
+        // either reading may denote the peer's own uid, no reading may denote anybody else's)
+        v = strtoul(identity.c_str(), &end, 0);
         if (end && *end == 0 && end != identity.c_str() && v == sock_uid) may_denote_self = true;
       }
       if (!may_denote_self) return rejected();
@@ -136,15 +140,23 @@ struct AuthModel {
       if (!cookie_challenged) {
         unsigned long want;
         bool unusual = false;
-        if (all_digits(data)) want = strtoul(data.c_str(), nullptr, 10);
+        if (all_digits(data) && !(data.size() > 1 && data[0] == '0')) want = strtoul(data.c_str(), nullptr, 10);
         else {
           auto it = nss.find(data);
           if (it != nss.end()) want = it->second;
           else {
-            // a number in an unusual spelling (" 0", "+0"): spec silent; never for another user
-            char *end = nullptr;
-            want = strtoul(data.c_str(), &end, 10);
-            if (data.empty() || !end || *end != 0 || end == data.c_str()) return rejected();
+            // a number in an unusual spelling (" 0", "+0", a leading zero, C-style octal / hex): spec silent;
+            // never for another user, whichever way it is read
+            bool any = false, parses = false;
+            for (int base : {10, 0}) {
+              char *end = nullptr;
+              unsigned long v = strtoul(data.c_str(), &end, base);
+              if (data.empty() || !end || *end != 0 || end == data.c_str()) continue;
+              parses = true;
+              if (v == server_uid) any = true;
+            }
+            if (!parses || !any) return rejected();
+            want = server_uid;
             unusual = true;
           }
         }
@@ -561,7 +573,19 @@ Plan gen_auth(uint64_t seed, bool th) {
   };
   auto ident = [&]() -> std::string {
     int k = (int)r.below(100);
-    if (k < 40) return std::to_string(puid);
+    if (k < 34) return std::to_string(puid);
+    if (k < 40) {
+      // near misses of the peer's own uid: one digit more, one digit less, leading zero, 2^32 more, trailing blank
+      std::string own = std::to_string(puid);
+      switch (r.below(6)) {
+        case 0: return own + std::to_string(r.below(10));
+        case 1: return own.size() > 1 ? own.substr(0, own.size() - 1) : own + "0";
+        case 2: { if (r.pct(50)) return "0" + own; char b[32]; snprintf(b, sizeof b, r.pct(50) ? "0%lo" : "0x%lx", (unsigned long)puid); return std::string(b); }
+        case 3: return std::to_string(4294967296ull + puid);
+        case 4: return own + " ";
+        default: return own + "x";
+      }
+    }
     if (k < 55) return std::to_string(suid);
     if (k < 70) return std::to_string(uids[r.below(4)]);
     if (k < 78) return r.pct(50) ? "root" : (r.pct(50) ? "alice" : "nosuchuser");
